@@ -633,7 +633,7 @@ def r5g_usage_attribution(ctx):
                 via_core.add(f.root)
                 changed = True
     readers = set()
-    for m in ("usages", "usage_by_fixture"):
+    for m in db.maps_where(lambda k, v: "FixtureUsage" in v):
         for op in db.ops_by_map.get(m, []):
             if op.mode == "S":
                 readers.add(op.fn.root)
